@@ -507,13 +507,24 @@ func init() {
 					if !ok {
 						continue
 					}
-					c, ok := normFact(EdgeFact{Cond: iff.Cond, Taken: true})
-					if !ok || c.Op != token.NEQ || !isNilConst(c.Y) || !isErrorType(c.X.Type()) {
+					// the branch on which the error is known non-nil: the true edge of `err != nil` or the false
+					// edge of `err == nil` (an early return of the mapping helper)
+					errSucc := -1
+					var c cmpNorm
+					for si, taken := range []bool{true, false} {
+						cc, ok := normFact(EdgeFact{Cond: iff.Cond, Taken: taken})
+						if ok && cc.Op == token.NEQ && isNilConst(cc.Y) && isErrorType(cc.X.Type()) {
+							errSucc, c = si, cc
+							break
+						}
+					}
+					if errSucc < 0 || len(b.Succs) != 2 {
 						continue
 					}
+					errBlock := b.Succs[errSucc]
 					storesIRet := false
 					eachInstr(fn, func(in ssa.Instruction) {
-						if st, ok := in.(*ssa.Store); ok && b.Succs[0].Dominates(st.Block()) {
+						if st, ok := in.(*ssa.Store); ok && errBlock.Dominates(st.Block()) {
 							if fv, _, ok := fieldAddrOf(st.Addr); ok && fv.Name() == "IRet" {
 								storesIRet = true
 							}
@@ -525,7 +536,7 @@ func init() {
 						var ret1, desc, code bool
 						eachInstr(fn, func(in ssa.Instruction) {
 							st, ok := in.(*ssa.Store)
-							if !ok || !b.Succs[0].Dominates(st.Block()) {
+							if !ok || !errBlock.Dominates(st.Block()) {
 								return
 							}
 							fv, _, ok := fieldAddrOf(st.Addr)
